@@ -372,7 +372,7 @@ fn c05_case(c: &GCase, rep: &mut Report) -> Vec<(String, String)> {
     rep.distinct(hmix(c.prog_seed, o.interleaving));
     rep.max("blocks", n as u64);
     if o.watchdog {
-        rep.inconclusive(format!("wall-clock watchdog fired for {}", p.describe()));
+        rep.abandoned(format!("wall-clock watchdog fired for {}", p.describe()));
         return out;
     }
     if o.stuck {
@@ -483,7 +483,7 @@ fn c06_case(c: &GCase, rep: &mut Report) -> Vec<(String, String)> {
     rep.count("ring_wraps", o.wraps);
     rep.distinct(hmix(c.prog_seed, fnv_str(&format!("{order:?}"))));
     if o.watchdog {
-        rep.inconclusive(format!("wall-clock watchdog fired for {}", p.describe()));
+        rep.abandoned(format!("wall-clock watchdog fired for {}", p.describe()));
         return out;
     }
     if o.stuck {
@@ -705,7 +705,7 @@ fn c07_case(c: &C07Case, rep: &mut Report) -> Vec<(String, String)> {
     let runner = if c.mt { "MTGraph" } else { "Graph" };
     rep.count(&format!("runs:{}:{}", c.kind, runner), 1);
     if o.watchdog {
-        rep.inconclusive(format!("wall-clock watchdog fired for {:?}", c.to_json()));
+        rep.abandoned(format!("wall-clock watchdog fired for {:?}", c.to_json()));
         return out;
     }
     let cancelled = CANCELLED.load(Ordering::SeqCst);
